@@ -283,6 +283,7 @@ Section SkelFacts.
     nth m (facs s') d = nth m (facs s) d.
   Proof.
     unfold WarmStart.run. destruct (shortcut a && list_eqb fixed (seq 0 n)); [intros [= <-]; reflexivity|].
+    destruct (empty_returns a && (length (modes_list a n fixed) =? 0)); [intros [= <-]; reflexivity|].
     destruct (needs_mode a tol && (0 <? budget) && (length (modes_list a n fixed) =? 0)); [discriminate|].
     intros [= <-] Hin. apply iterate_other. intros H. apply modes_list_In in H. tauto.
   Qed.
@@ -297,6 +298,7 @@ Section SkelFacts.
     run a n fixed budget tol s = Ok s' -> length (facs s') = length (facs s) /\ wts s' = wts s.
   Proof.
     unfold WarmStart.run. destruct (shortcut a && list_eqb fixed (seq 0 n)); [intros [= <-]; auto|].
+    destruct (empty_returns a && (length (modes_list a n fixed) =? 0)); [intros [= <-]; auto|].
     destruct (needs_mode a tol && (0 <? budget) && (length (modes_list a n fixed) =? 0)); [discriminate|].
     intros [= <-]. split; [apply iterate_length | apply iterate_wts].
   Qed.
@@ -309,7 +311,8 @@ Section SkelFacts.
     (forall m, m < n -> In m (eff_fixed a n fixed)) -> run a n fixed budget tol s = Ok s' -> s' = s.
   Proof.
     intros Hall. unfold WarmStart.run. destruct (shortcut a && list_eqb fixed (seq 0 n)); [intros [= <-]; reflexivity|].
-    rewrite (modes_list_all_fixed _ _ _ Hall). destruct (needs_mode a tol && (0 <? budget) && _); [discriminate|].
+    rewrite (modes_list_all_fixed _ _ _ Hall). destruct (empty_returns a && _); [intros [= <-]; reflexivity|].
+    destruct (needs_mode a tol && (0 <? budget) && _); [discriminate|].
     intros [= <-]. apply iterate_nil.
   Qed.
 End SkelFacts.
@@ -319,7 +322,18 @@ Theorem run_zero_budget {M W} upd stop normf normalize a n fixed tol (s : st M W
   run upd stop normf normalize a n fixed 0 tol s = Ok s.
 Proof.
   unfold run. destruct (shortcut a && list_eqb fixed (seq 0 n)); [reflexivity|].
+  destruct (empty_returns a && _); [reflexivity|].
   cbn [Nat.ltb Nat.leb]. rewrite andb_false_r. reflexivity.
+Qed.
+
+(* non_negative_parafac_hals with nothing left to update returns the initialisation: every budget, every tolerance,
+   every normalisation setting (the return precedes the loop) *)
+Theorem hals_all_fixed_returns {M W} upd stop normf normalize n fixed budget tol (s : st M W) :
+  (forall m, m < n -> In m fixed) -> run upd stop normf normalize NNHals n fixed budget tol s = Ok s.
+Proof.
+  intros Hall. unfold run. cbn [shortcut andb empty_returns].
+  rewrite (modes_list_all_fixed NNHals n fixed); [reflexivity|].
+  intros m Hm. unfold eff_fixed. cbn [drops_last andb]. auto.
 Qed.
 
 (* determinism: the run is a function of the initial state only -- equal starts, equal iterates *)
